@@ -683,6 +683,8 @@ def get_state(m: Model, d: Data, state: wp.array2d[float], sig: int, active: Opt
     sig: Bitflag specifying state components.
     active: Per-world bitmask for getting state.
   """
+  if sig < 0:
+    raise ValueError(f"invalid state signature {sig} < 0")
   if sig >= (1 << State.NSTATE):
     raise ValueError(f"invalid state signature {sig} >= 2^mjNSTATE")
 
@@ -838,6 +840,8 @@ def set_state(m: Model, d: Data, state: wp.array2d[float], sig: int, active: Opt
     sig: Bitflag specifying state components.
     active: Per-world bitmask for setting state.
   """
+  if sig < 0:
+    raise ValueError(f"invalid state signature {sig} < 0")
   if sig >= (1 << State.NSTATE):
     raise ValueError(f"invalid state signature {sig} >= 2^mjNSTATE")
 
